@@ -1,7 +1,7 @@
 (* C01Theorems.v — the property theorems of C01 (decode then encode is lossless outside reserved fields).
    Each is closed by `exact <lemma>` and followed by Print Assumptions (audited by ./check on every run). *)
 From V.lib Require Import Base.
-From V.c01 Require Import C01Codec C01Model C01LeafProofs C01Leaf2Proofs C01Leaf3Proofs C01TableProofs C01TreeProofs C01WhyProofs C01Witness C01Witness3
+From V.c01 Require Import C01Codec C01Model C01LeafProofs C01Leaf2Proofs C01Leaf3Proofs C01Leaf4Proofs C01TableProofs C01TreeProofs C01WhyProofs C01Witness C01Witness3
   C01RealFiles C01RealWitness.
 
 (* a compact header written by EncodeHeaderSW is read back by DecodeHeaderSR *)
@@ -114,6 +114,14 @@ Theorem C01_leaf_lossless_schm : leaf_lossless dec_schm. Proof. exact lossless_s
 Print Assumptions C01_leaf_lossless_schm.
 Theorem C01_leaf_lossless_cslg : leaf_lossless dec_cslg. Proof. exact lossless_cslg. Qed.
 Print Assumptions C01_leaf_lossless_cslg.
+Theorem C01_leaf_lossless_senc : leaf_lossless dec_senc. Proof. exact lossless_senc. Qed.
+Print Assumptions C01_leaf_lossless_senc.
+Theorem C01_leaf_lossless_emsg : leaf_lossless dec_emsg. Proof. exact lossless_emsg. Qed.
+Print Assumptions C01_leaf_lossless_emsg.
+Theorem C01_leaf_lossless_elng : leaf_lossless dec_elng. Proof. exact lossless_elng. Qed.
+Print Assumptions C01_leaf_lossless_elng.
+Theorem C01_leaf_lossless_kind : leaf_lossless dec_kind. Proof. exact lossless_kind. Qed.
+Print Assumptions C01_leaf_lossless_kind.
 Theorem C01_leaf_lossless_stsd : leaf_lossless dec_stsd. Proof. exact lossless_stsd. Qed.
 Print Assumptions C01_leaf_lossless_stsd.
 Theorem C01_leaf_lossless_dref : leaf_lossless dec_dref. Proof. exact lossless_dref. Qed.
@@ -218,6 +226,15 @@ Print Assumptions C01_colr_bits_refuted.
 Theorem C01_url_tail_refuted : refutes w_url_tail [(n_url, RSizeBig)].
 Proof. exact url_tail_refuted. Qed.
 Print Assumptions C01_url_tail_refuted.
+Theorem C01_senc_zero_refuted : refutes w_senc_zero [(n_senc, RGuard)].
+Proof. exact senc_zero_refuted. Qed.
+Print Assumptions C01_senc_zero_refuted.
+Theorem C01_senc_large_fixed : decode w_senc_large = Err.
+Proof. exact senc_large_fixed. Qed.
+Print Assumptions C01_senc_large_fixed.
+Theorem C01_elng_unterminated_refuted : refutes w_elng_unterminated [(n_elng, RSizeBig); (n_elng, RRsv false 0)].
+Proof. exact elng_unterminated_refuted. Qed.
+Print Assumptions C01_elng_unterminated_refuted.
 Theorem C01_stsd_nobody_fixed : decode w_stsd_nobody = Err.
 Proof. exact stsd_nobody_fixed. Qed.
 Print Assumptions C01_stsd_nobody_fixed.
